@@ -56,12 +56,13 @@ func (o *Out) Emit(op string, goOut string) {
 	fmt.Fprintln(o.gof, goOut)
 	o.n++
 }
+
 // Run executes op against the real code and records both lines.
 func (o *Out) Run(op string) {
 	o.Emit(op, execOp(op))
 	o.stats["op_"+strings.SplitN(op, " ", 2)[0]]++
 }
-func (o *Out) Stat(k string) { o.stats[k]++ }
+func (o *Out) Stat(k string)         { o.stats[k]++ }
 func (o *Out) StatN(k string, n int) { o.stats[k] += n }
 func (o *Out) Close(statsPath string) {
 	o.ops.Flush()
@@ -159,7 +160,7 @@ func execOp(op string) (out string) {
 	switch args[0] {
 	case "fen", "gen", "attby", "mv", "mvs", "play", "null", "perft", "att", "magic":
 		return execChess(args)
-	case "search", "judge", "deep":
+	case "search", "judge", "deep", "deepseq":
 		return execSearch(args)
 	case "hashdiff", "ecache", "dialog", "timed":
 		return execMore(args)
